@@ -16,10 +16,11 @@ LEVEL = 'exploration'
 RULE = ('each case = one long-lived connection under one of the four normalize/validate outbound configurations sending up to '
         '14 header blocks (request, response, informational, trailers, push), each built from a valid base with 0-3 grammar '
         'mutations: mixed-case names, surrounding SP/HTAB, str or bytes, tuple/HeaderTuple/NeverIndexedHeaderTuple, all special '
-        'field names, duplicates, reorderings, 19/20/21-byte cookies; non-trivial = block emitted and compared or refusal '
+        'field names, duplicates, reorderings, 19/20/21-byte cookies; after a refused call the next block (same or another kind) is often '
+        'sent at the very same position, where it is still judged as the first block of that kind; non-trivial = block emitted and compared or refusal '
         'judged; distinct = hash of (config, kind, input list)')
 MINIMA = {'emitted_blocks_compared': 8000, 'refusals_seen': 1500, 'never_indexed_fields_checked': 1500,
-          'nonconformant_inputs_judged': 1500, 'tidy_inputs_accepted': 2000}
+          'nonconformant_inputs_judged': 1500, 'tidy_inputs_accepted': 2000, 'blocks_at_the_position_of_a_refused_call': 1000}
 
 
 def n_cases(tier):
@@ -150,10 +151,25 @@ def run_case(idx, rng, tier, rep):
     h = scen.Hostile(e_client, cfg=cfg, keep_log=True)
     t = h.t
     h.mdec.max_allowed_table_size = 2 ** 20
+    retry = None
     for _ in range(rng.randrange(4, 15)):
         kind = rng.choice(['request', 'request', 'trailers'] if e_client else ['response', 'response', 'informational', 'trailers', 'push'])
+        again = None
+        if retry is not None and rng.random() < 0.6:
+            # a refused call sent nothing: the next block at the same position is still the same kind of block
+            again, retry = retry, None
+            kind = again[0]
+            if kind in ('response', 'informational'):
+                kind = rng.choice(['response', 'response', 'informational'])
+            rep.count('blocks_at_the_position_of_a_refused_call')
+        retry = None
         base = base_headers(rng, kind)
+        if again is not None and rng.random() < 0.3:
+            other = rng.choice(['trailers', 'response', 'request'])      # a block of another kind at this position
+            base = base_headers(rng, other)
         muts = []
+        if again is not None and other_kind(base, kind):
+            muts.append('block-of-another-kind')
         r = rng.random()
         if r > 0.25:
             for _ in range(rng.choice([1, 1, 2, 3])):
@@ -161,7 +177,12 @@ def run_case(idx, rng, tier, rep):
         inp = wrap(rng, base)
         # position set-up
         es = False
-        if kind == 'request':
+        if again is not None:
+            call = again[1][:-1] + (inp,)
+            es = again[2] if kind != 'informational' else False
+            if kind == 'response' and again[0] == 'informational':
+                es = rng.random() < 0.5
+        elif kind == 'request':
             sid = h.e_next
             h.e_next += 2
             es = rng.random() < 0.5
@@ -208,10 +229,13 @@ def run_case(idx, rng, tier, rep):
             feed_monitor(h, res)
             continue
         sig = (tuple(sorted(cfg.items())), kind, tuple((repr(type(x).__name__), x[0], x[1]) for x in inp))
+        if again is not None:
+            w['after_refused_call_at_same_position'] = True
         if res.exc is not None:
             if not isinstance(res.exc, h2.exceptions.ProtocolError):
                 rep.violation('C14:' + core.exc_key(res.exc), 'header call raised %r' % res.exc, w)
                 return
+            retry = (kind, call, es)
             rep.count('refusals_seen')
             rep.nontrivial(sig)
             if res.frames:
@@ -272,6 +296,15 @@ def run_case(idx, rng, tier, rep):
             rep.sample({'cfg': cfg, 'kind': kind, 'input': w['input'], 'emitted': got})
     # refusals counted as judged non-conformant inputs too
     return
+
+
+def other_kind(base, kind):
+    ps = sorted(n for n, _ in base if n.startswith(b':'))
+    if kind in ('request', 'push'):
+        return len(ps) != 4
+    if kind in ('response', 'informational'):
+        return ps != [b':status']
+    return bool(ps)
 
 
 def looks_informational(want):
